@@ -45,6 +45,36 @@ Go(doc, strat, c, i, calls) ==
                 IN Go(doc, strat, c2, v.end, calls2)                        \* next byte processed: the value's last byte
     ELSE Go(doc, strat, M!Step(c, b), i + 1, calls)
 
+\* The same traversal for *recorded* answers (any integer, any error): answers[k] = <<cls, pp, err>> as logged by the
+\* harness (cls # 0: an answer far outside any input).  Used by TraceHandlers to check that this model is faithful
+\* to the real code for hostile answers as well (conformance notes, never violations).
+RECURSIVE GoRec(_, _, _, _, _)
+GoRec(doc, answers, c, i, calls) ==
+  IF c.out # "run" THEN [cfg |-> c, calls |-> calls, herr |-> FALSE, lerr |-> FALSE]
+  ELSE IF i > Len(doc) THEN [cfg |-> M!AtEOF(c), calls |-> calls, herr |-> FALSE, lerr |-> FALSE]
+  ELSE
+    LET b == doc[i] IN
+    IF AtMember(c, b) THEN
+      LET calls2 == Append(calls, i - 1)
+          k == Len(calls2)
+          a == IF k <= Len(answers) THEN answers[k] ELSE <<0, 0, 0>>
+      IN IF a[3] # 0 THEN [cfg |-> c, calls |-> calls2, herr |-> TRUE, lerr |-> FALSE]
+         ELSE IF ~UsesAnswer(b) \/ (a[1] = 0 /\ a[2] = 0) THEN GoRec(doc, answers, M!Step(c, b), i + 1, calls2)
+         ELSE IF a[1] # 0 \/ a[2] < 0 \/ a[2] > Len(doc) - (i - 1)
+           THEN [cfg |-> c, calls |-> calls2, herr |-> FALSE, lerr |-> TRUE]          \* errPOutOfRange
+         ELSE LET c1 == M!Step(c, b)
+                  c2 == [c1 EXCEPT !.pos = (i - 1) + a[2] - 1]
+              IN GoRec(doc, answers, c2, (i - 1) + a[2], calls2)
+    ELSE GoRec(doc, answers, M!Step(c, b), i + 1, calls)
+
+ImplRunRec(doc, kind, answers) ==
+  LET i0 == SkipWS(doc, 1)
+      b0 == At(doc, i0)
+      open == IF kind = "A" THEN 91 ELSE 123
+  IN IF b0 # 110 /\ b0 # open THEN [ok |-> FALSE, end |-> 0, calls |-> <<>>]
+     ELSE LET r == GoRec(doc, answers, M!InitCfg, 1, <<>>) IN
+          [ok |-> r.cfg.out = "done" /\ ~r.herr /\ ~r.lerr, end |-> r.cfg.end, calls |-> r.calls]
+
 \* main := json_space* ( json_null | '[' ... ']' )   (resp. '{' ... '}')
 ImplRun(doc, kind, strat) ==
   LET i0 == SkipWS(doc, 1)
